@@ -217,6 +217,11 @@ func (g *Gen) acctIndexOfRaw(raw []byte) int {
 }
 
 func (g *Gen) freshNonce(src uint32) uint64 {
+	// the all-zero pair (0, 0) -- and (d, 0) generally -- is stored as an EMPTY value (every field is the proto default):
+	// present-but-empty is where nil checks and length checks part ways
+	if g.chance(0.08) && !g.w().k.GetUsedNonce(g.w().ctx, types.Nonce{SourceDomain: src, Nonce: 0}) {
+		return 0
+	}
 	for {
 		n := uint64(g.pick(1 << 20))
 		if g.chance(0.1) {
